@@ -1,5 +1,5 @@
 From Coq Require Import List Bool.
-From LTV.C18 Require Import Model Proofs ProofsA ProofsB ProofsC ProofsD ProofsE ProofsF.
+From LTV.C18 Require Import Model Proofs ProofsA ProofsB ProofsC ProofsD ProofsE ProofsF ProofsG.
 Import ListNotations.
 
 (* All theorems below: for ALL main-thread programs p0 and disk-thread programs p1 (hypotheses: each chunk id is
@@ -146,7 +146,42 @@ Theorem remove_terminates : forall p0, distinct_pushes p0 [Loop] -> forall k s t
 Proof. exact ProofsF.remove_terminates. Qed.
 Print Assumptions remove_terminates.
 
-(* sanity instance (finite, bound in the statement): every interleaving of one small program explored inside Coq *)
+(* DEADLOCK FREEDOM OF THE HAND-OFF AUTOMATON, UNBOUNDED (supersedes the bounded exploration below as the general
+   statement): disk thread = its event loop [Loop], ALL main-thread programs - any number of pushes, removes and
+   dispatches, hence any number of queued chunks - and ALL schedules (every reachable state).
+   - [main_stack_settled]: the main thread's stack is always settled ([ProofsG.mwf]: below a command or an item of remove
+     there are only commands; the head is an item with a real step), which is what makes the case analysis of a disabled
+     main thread complete;
+   - [handoff_disk_always_enabled]: the disk thread can step in every reachable state, so NO reachable state is a deadlock;
+   - [handoff_main_blocked_only_at]: the main thread is disabled only at the three blocking points of the real code:
+     hq_wait with m_has_done_chunks clear, or an acquisition of m_done_chunks_lock (remove's probe hq_done_lock / work()'s
+     hq_pop_lock) while the disk thread holds it inside chunk_done;
+   - [hashing_handoff_no_deadlock]: whenever the main thread still has something to do, at most 4 steps of the disk thread
+     - which leave the main thread's stack untouched - make it enabled. So under every schedule that is fair to the disk
+     thread the main thread is never blocked for ever, wherever it is in its program (remove_terminates adds that the
+     busy-wait loop of remove itself ends). The glue evaluates exactly this clause on the implementation's step log
+     (props/c18.py oracle 'main-stuck' / 'disk-stuck'). *)
+Theorem main_stack_settled : forall p0 p1 s, reachable (init p0 p1) s -> ProofsG.minv s.
+Proof. exact ProofsG.reachable_minv. Qed.
+Print Assumptions main_stack_settled.
+Theorem handoff_disk_always_enabled : forall p0 s, reachable (init p0 [Loop]) s -> exists s', step s 1 = Some s'.
+Proof. exact ProofsG.disk_always_enabled. Qed.
+Print Assumptions handoff_disk_always_enabled.
+Theorem handoff_main_blocked_only_at : forall p0 s,
+  distinct_pushes p0 [Loop] -> reachable (init p0 [Loop]) s -> td0 s <> [] -> step s 0 = None ->
+  (exists c t l rest, td0 s = IRemWait c t l :: rest /\ flag s = false) \/
+  (dlk s = true /\ ((exists c t l rest, td0 s = IRemDone c t l :: rest) \/ (exists rest, td0 s = IWorkPop :: rest))).
+Proof. exact ProofsG.main_blocked_only_at. Qed.
+Print Assumptions handoff_main_blocked_only_at.
+Theorem hashing_handoff_no_deadlock : forall p0 s,
+  distinct_pushes p0 [Loop] -> reachable (init p0 [Loop]) s -> td0 s <> [] ->
+  exists n, n <= 4 /\ td0 (run s (repeat 1 n)) = td0 s /\ exists s', step (run s (repeat 1 n)) 0 = Some s'.
+Proof. exact ProofsG.main_never_stuck. Qed.
+Print Assumptions hashing_handoff_no_deadlock.
+
+(* sanity instance (finite, bound in the statement): every interleaving of one small program explored inside Coq. Kept
+   beside the unbounded theorems above because it is about a FINITE disk program ([Dispatch], not the event loop) and
+   also bounds the length of every maximal run (40 steps), which hashing_handoff_no_deadlock does not imply. *)
 Theorem hashing_handoff_instance_partial : explore 40 prog_a = true.
 Proof. exact Proofs.instance_a. Qed.
 Print Assumptions hashing_handoff_instance_partial.
